@@ -381,7 +381,19 @@ class SymExec:
                     out.append((s.load(t), s))
                 return out
             if op == "&":
-                return self.lval(e["e"], st)
+                inner = strip_expect(e["e"])
+                while inner is not None and inner["k"] == "cast":
+                    inner = inner["e"]
+                out = []
+                for (loc, s) in self.lval(e["e"], st):
+                    # the address of a member at offset 0 is the object's own address (`&node->base` is `(Base *) node`)
+                    if loc[0] == "fld" and inner is not None and inner["k"] == "member" and inner.get("rec") in self.unit.records:
+                        f0 = self.unit.records[inner["rec"]].field(inner["field"])
+                        if f0 is not None and f0.get("off") == 0:
+                            out.append((loc[1], s))
+                            continue
+                    out.append((loc, s))
+                return out
             if op in ("post++", "post--", "pre++", "pre--"):
                 out = []
                 for (loc, s) in self.lval(e["e"], st):
@@ -684,18 +696,25 @@ class SymFlow:
         if widen:
             # loop header -> local variables assigned inside the loop: replaced by an opaque
             # per-loop symbol whenever the header is entered (standard widening, keeps terms finite)
+            from .ir import cv as _cv
             for (hdr, body) in fn.loops():
                 mod = set()
+                nonconst = set()
                 for bid in body:
                     for stt in fn.blocks[bid].stmts:
                         for n in _walk(stt):
                             tgt = None
                             if n["k"] == "asg":
                                 tgt = _sc(n["l"])
+                                if tgt is not None and tgt["k"] == "ref" and not (n["op"] == "=" and _cv(n["r"]) in (0, 1)):
+                                    nonconst.add(tgt["name"])
                             elif n["k"] == "un" and ("++" in n["op"] or "--" in n["op"]):
                                 tgt = _sc(n["e"])
+                                if tgt is not None and tgt["k"] == "ref":
+                                    nonconst.add(tgt["name"])
                             elif n["k"] == "decl":
                                 mod.add(n["name"])
+                                nonconst.add(n["name"])
                             elif n["k"] == "call":
                                 for a in n["args"]:
                                     a2 = _sc(a)
@@ -703,9 +722,12 @@ class SymFlow:
                                         t2 = _sc(a2["e"])
                                         if t2 is not None and t2["k"] == "ref":
                                             mod.add(t2["name"])
+                                            nonconst.add(t2["name"])
                             if tgt is not None and tgt["k"] == "ref" and tgt.get("decl") in ("local", "param"):
                                 mod.add(tgt["name"])
-                self.widen[hdr] = sorted(mod)
+                # a flag that only ever receives the constants 0 / 1 inside the loop keeps its value at the header: the header
+                # states are partitioned by it (`found`, `done`), which keeps what was established together with the flag
+                self.widen[hdr] = sorted(mod & nonconst)
         self.fn = fn
         self.on_call = on_call
         self.on_return = on_return
